@@ -252,6 +252,10 @@ class KnotVec(Family):
         rng.shuffle(pairs)
         for p, m, cl in pairs[: n // 2]:
             out.append({"op": "generate", "p": p, "n": m, "clamped": cl})
+        # large counts: segment numbers for which a carelessly re-associated linspace step does not reach 1.0 exactly
+        for seg in (49, 98, 103, 107, 161):
+            p = rng.randint(1, 5)
+            out.append({"op": "generate", "p": p, "n": seg + p, "clamped": True})
         while len(out) < n:
             p = rng.randint(1, 7)
             U, kind = gc.knotvector(rng, p)
@@ -279,6 +283,11 @@ class KnotVec(Family):
                 elif r < 0.7:
                     mal = "empty"
                     U2 = []
+                elif r < 0.78:
+                    # a decrease far below any round-off tolerance one might be tempted to grant (2^-24 .. 2^-40)
+                    mal = "tiny-decrease"
+                    i = rng.randrange(p + 1, len(U2) - p - 1) if len(U2) > 2 * p + 2 else rng.randrange(1, len(U2) - 1)
+                    U2[i] = U2[i + 1] + 2.0 ** -rng.choice([24, 30, 40]) if i + 1 < len(U2) else U2[i]
                 out.append({"op": "check", "p": p, "U": U2, "n": nn, "mal": mal})
         return out
 
